@@ -38,11 +38,11 @@ META = {
 def run(rep):
     table = W.writer_table(rep.repo)
     rep.extra["writer_role_table"] = table
-    preds(rep, table)
-    enumeration(rep)
-    petri(rep)
-    build_net(rep)
-    bfs(rep)
+    rep.run(preds, table)
+    rep.run(enumeration)
+    rep.run(petri)
+    rep.run(build_net)
+    rep.run(bfs)
 
 
 # ------------------------------------------------------------------ O20.1 / O20.2
